@@ -9,6 +9,7 @@ mod d7;
 mod d8;
 mod d5gen;
 mod nor;
+mod rows;
 mod util;
 
 fn main() {
